@@ -112,7 +112,31 @@ def gen_cases(rng, tier):
                     frame = bytes(b)
                     kind += "+valid"
         cases.append((kind + ("/tcp" if tcp else "/udp") + ("6" if v6 else "4"), frame))
+    # histories: the same host pair exchanging TCP and UDP packets of EQUAL transport length, valid and corrupted, interleaved
+    for g in range(12 if tier == "quick" else 150):
+        v6 = bool(g & 1)
+        alen = 16 if v6 else 4
+        src = bytes(rng.randrange(256) for _ in range(alen))
+        dst = bytes(rng.randrange(256) for _ in range(alen))
+        n = rng.choice([0, 5, 100, 1180])
+        for j in range(6):
+            tcp = bool((j + g) & 1)
+            a, b = (src, dst) if j % 3 else (dst, src)
+            body = bytes(rng.randrange(256) for _ in range(n + (0 if tcp else 12)))
+            seg = synth.tcp_segment(a, b, 443, 50000, rng.randrange(1 << 32), 0, 0x18, body) if tcp else synth.udp_datagram(a, b, 443, 50000, body)
+            if j == 4:
+                sb = bytearray(seg)
+                sb[-1] ^= 0x10
+                seg = bytes(sb)
+            proto = 6 if tcp else 17
+            ip = synth.ipv4(a, b, proto, seg) if not v6 else synth.ipv6(a, b, proto, seg)
+            cases.append(("history%s/%s%s" % ("-bad" if j == 4 else "", "tcp" if tcp else "udp", "6" if v6 else "4"), synth.ether(MACS[0], MACS[1], ip)))
     return cases
+
+
+def random_copy(ck):
+    import random
+    return random.Random(ck.seed)
 
 
 def oracle(ab):
@@ -164,6 +188,17 @@ def main():
         hist[kind.split("+")[0] if not kind.startswith("steer") else "steer/" + kind.split("/")[1]] = hist.get(kind, 0) + 1
         hist[r] = hist.get(r, 0) + 1
         ck.case(frame, sample=({"kind": kind, "result": r, "frame": frame.hex()[:90]} if ck.cov["evaluations"] % 97 == 0 else None))
+    # purity: the verdict is a function of the packet alone -- re-evaluate every frame in another order
+    allcases = gen_cases(random_copy(ck), ck.tier)
+    first = {}
+    for kind, frame in allcases:
+        first[frame] = impl.check(frame)[1]
+    order = list(first)
+    ck.rng.shuffle(order)
+    for frame in order:
+        again = impl.check(frame)[1]
+        if again != first[frame]:
+            fails.append({"kind": "history", "frame": frame.hex(), "why": "verdict depends on what was checked before: %s then %s" % (first[frame], again)})
     # function-level: ones_complement_checksum on the fold boundaries
     if m:
         for total in [0, 1, 0xFFFE, 0xFFFF, 0x10000, 0x10001, 0x1FFFE, 0x1FFFF, 0x20000, 0x2FFFD, 0xFFFF0000 >> 8]:
